@@ -192,7 +192,9 @@ def stepOp (j : Bool) (limit : Nat) (a : Al) (s : Seq.Seq) (p : POp) : Option (O
         let m := s!"{res} {st} ## {r.al.size}{pos}"
         let ans := specStep j s op
         let s' := match pickAlt ans res with | some s' => s' | none => s
-        (some (some r.al, s'), { model := m, spec := renderAlts j ans, cov := covOf a s op r })
+        let oom := if (ans.alts.find? (fun p => p.1 = res)).isNone ∧ (ans.oomAlts.find? (fun p => p.1 = res)).isSome
+                   then ["allocator-refused"] else []
+        (some (some r.al, s'), { model := m, spec := renderAlts j ans, cov := covOf a s op r ++ oom })
 
 def doNew (limit : Nat) (capStr : String) : Option (Option Al) × Out :=
   match parseInt? capStr with
